@@ -146,6 +146,10 @@ impl<'a> Gen<'a> {
         world
     }
 
+    pub fn pick_location(&mut self) -> (String, String) {
+        self.location()
+    }
+
     fn location(&mut self) -> (String, String) {
         if self.rng.chance(self.cfg.dubious_pct, 100) {
             let host = *self.rng.pick(&[
